@@ -498,6 +498,45 @@ pub fn check(bytes: &[u8], _ctx: &Ctx) -> Verdict {
     };
     let mut labels = vec![case.mode];
     labels.extend(case.ops.iter().copied());
+    // the same tree presented through iterators with inexact size hints must be judged the same
+    // way: same acceptance, an error naming a violated rule as well, the same compact tree
+    if case.tree.num_nodes() <= 20_000 {
+        let mode = 1 + (hash_bytes(bytes) % 3) as u8;
+        let lazy = match catch_unwind(AssertUnwindSafe(|| glue::build_lazy(&case.tree, mode))) {
+            Ok(b) => b,
+            Err(_) => return Verdict::fail("C11/panic/lazy-iterators", format!("from_root panicked on iterators with size-hint mode {}", mode)),
+        };
+        match (&built, &lazy) {
+            (Ok(a), Ok(b)) => {
+                if format!("{:?}", a.verif_dump()) != format!("{:?}", b.verif_dump()) {
+                    return Verdict::fail("C11/presentation/lazy-iterators", format!("the compact tree depends on the size hints of the child iterators (mode {})", mode));
+                }
+            }
+            (Err(_), Err(e)) => {
+                if let Contract::MustReject(rules) = &contract {
+                    let kind = format!("{:?}", e);
+                    if KNOWN_KINDS.contains(&kind.as_str()) && !rules.iter().any(|r| format!("{:?}", r) == kind) {
+                        return Verdict::fail(
+                            format!("C11/wrong-error/lazy-iterators/{}", kind),
+                            format!("with size-hint mode {} from_root returns {:?} but the violated rules are {:?}", mode, e, rules),
+                        );
+                    }
+                }
+            }
+            (a, b) => {
+                return Verdict::fail(
+                    "C11/presentation/lazy-iterators",
+                    format!(
+                        "acceptance depends on the size hints of the child iterators (mode {}): exact hints give {:?}, inexact ones {:?}",
+                        mode,
+                        a.as_ref().map(|_| "Ok").map_err(|e| format!("{:?}", e)),
+                        b.as_ref().map(|_| "Ok").map_err(|e| format!("{:?}", e))
+                    ),
+                )
+            }
+        }
+        labels.push("lazy-iterators-agree");
+    }
     let nontrivial;
     match (&contract, &built) {
         (Contract::MustAccept, Err(e)) => {
@@ -571,9 +610,9 @@ pub fn prop() -> Prop {
         id: "C11",
         check,
         describe,
-        rule: "trees from three sources: valid generated games; valid games + 1-2 violation operators (empty chance, bad weight {0,-1,NaN,+-inf,-0}, shared chance label with other weights/order/1e-9 perturbation, empty player, renamed/reordered/dropped/duplicated action at one node, relabel to another infoset, forgotten own action, absent-mindedness, non-finite payoff, single- and multi-action nodes under one name, single infoset with differing action) at stream-chosen nodes for either player; raw label soup over 2-4 label alphabets; rarely one very wide decision node (255..131073 actions) two of whose actions, a power of two apart, lead to decisions that do or do not share an infoset. Oracle: an independent contract validator (MustAccept / MustReject(set of rules) / DontCare); accepted trees are additionally zipped against the harness's collapsed tree, evaluated against the C01 oracles and solved for 3 iterations by each method. Non-trivial = rejected with the violation across root branches, for player two, or a recall violation; or accepted with a multi-node infoset; distinct by tree.",
+        rule: "trees from three sources: valid generated games; valid games + 1-2 violation operators (empty chance, bad weight {0,-1,NaN,+-inf,-0}, shared chance label with other weights/order/1e-9 perturbation, empty player, renamed/reordered/dropped/duplicated action at one node, relabel to another infoset, forgotten own action, absent-mindedness, non-finite payoff, single- and multi-action nodes under one name, single infoset with differing action) at stream-chosen nodes for either player; raw label soup over 2-4 label alphabets; rarely one very wide decision node (255..131073 actions) two of whose actions, a power of two apart, lead to decisions that do or do not share an infoset. Every tree is also presented through child iterators with inexact size hints ((0, None), (min(1, n), None), (0, Some(n))) and must be judged identically. Oracle: an independent contract validator (MustAccept / MustReject(set of rules) / DontCare); accepted trees are additionally zipped against the harness's collapsed tree, evaluated against the C01 oracles and solved for 3 iterations by each method. Non-trivial = rejected with the violation across root branches, for player two, or a recall violation; or accepted with a multi-node infoset; distinct by tree.",
         max_len: 700,
-        cases_quick: 1_500_000,
+        cases_quick: 1_000_000,
         cases_thorough: 20_000_000,
         assumptions: &[
             "don't-care zones: chance probability vectors differing by 1e-12..1e-6 relative; a single-outcome chance node sharing a label with a multi-outcome one",
